@@ -11,6 +11,8 @@ CONSTANTS
   MaxDepth = 5
   MaxCols = 1
   Emit = FALSE
+  ObsV = {}
+  ObsT = {}
 VIEW View
 CONSTRAINT Bound
 ACTION_CONSTRAINT StepProps
